@@ -4,6 +4,7 @@ import (
 	"go/ast"
 	"go/token"
 	"go/types"
+	"strings"
 
 	"verif/checker/internal/astx"
 	"verif/checker/internal/cfgx"
@@ -549,6 +550,101 @@ func c19(c *Ctx) {
 		}
 	}
 	c.errorDispositions("C19.Z6", []string{"timesafeguard"}, nil, "a failed measurement is taken for a good one, or the join target's failure is not fatal")
+	// Z5e: the status answer is produced for this request: the value with CurrentTime is encoded straight into the response
+	// writer (an answer assembled earlier, or kept for later requests, carries a time outside the asker's measurement window)
+	if hs := c.P.Func("api.(*HTTP).handleStatus"); hs != nil && hs.Body() != nil {
+		info := hs.Info()
+		var resParam types.Object
+		for _, fld := range hs.FuncType().Params.List {
+			for _, nm := range fld.Names {
+				if o := info.Defs[nm]; o != nil && strings.HasSuffix(o.Type().String(), "http.ResponseWriter") {
+					resParam = o
+				}
+			}
+		}
+		nEnc := 0
+		for _, call := range astx.Calls(hs.Body(), true) {
+			se, ok := ast.Unparen(call.Fun).(*ast.SelectorExpr)
+			if !ok || se.Sel.Name != "Encode" || len(call.Args) != 1 {
+				continue
+			}
+			cl, ok := ast.Unparen(call.Args[0]).(*ast.CompositeLit)
+			if !ok || litField(cl, "CurrentTime") == nil {
+				continue
+			}
+			nEnc++
+			okDirect := false
+			if ne, ok := ast.Unparen(se.X).(*ast.CallExpr); ok && len(ne.Args) == 1 {
+				if fn := astx.Callee(info, ne); fn != nil && fn.Name() == "NewEncoder" {
+					if id, ok := ast.Unparen(ne.Args[0]).(*ast.Ident); ok && resParam != nil && astx.Obj(info, id) == resParam {
+						okDirect = true
+					}
+				}
+			}
+			r.Check(okDirect, "C19.Z5", hs.Name(), "the reported time is encoded straight into this request's response", c.P.Pos(call.Pos()), "json.NewEncoder(<response writer>).Encode(…CurrentTime: time.Now()…)",
+				"the status answer that carries CurrentTime is encoded into a buffer instead of the response: it can be kept and served to later requests, whose askers then bound the clock difference with a time that was not read inside their measurement window")
+		}
+		// … and nothing else writes the body on that path: no res.Write of bytes prepared elsewhere
+		for _, call := range astx.Calls(hs.Body(), true) {
+			if se, ok := ast.Unparen(call.Fun).(*ast.SelectorExpr); ok && se.Sel.Name == "Write" {
+				if id, ok := ast.Unparen(se.X).(*ast.Ident); ok && resParam != nil && astx.Obj(info, id) == resParam {
+					r.Fail("C19.Z5", hs.Name(), "the status body is not written from prepared bytes", c.P.Pos(call.Pos()),
+						"handleStatus writes bytes to the response that were not encoded for this request: a cached answer carries an old CurrentTime")
+				}
+			}
+		}
+		if nEnc == 0 {
+			r.Break("C19.Z5: the JSON encoding of the status (with CurrentTime) was not found in handleStatus")
+		}
+	}
+	// Z3l: a peer whose request succeeded has its measurement stored: in collectTime's goroutine every path from the nil-error
+	// edge of getServerTime to the end of the goroutine passes the assignment of the slot
+	if ct := c.P.Func("timesafeguard.collectTime"); ct != nil && ct.Body() != nil && gst != nil {
+		info := ct.Info()
+		n := 0
+		for _, lit := range funcLitsIn(ct.Body()) {
+			lg := c.LitGraph(ct.Name()+"$go", lit, info)
+			isSlot := func(x int) bool {
+				as, ok := lg.V[x].Node.(*ast.AssignStmt)
+				if !ok || len(as.Lhs) != 1 {
+					return false
+				}
+				_, isIdx := ast.Unparen(as.Lhs[0]).(*ast.IndexExpr)
+				return isIdx
+			}
+			for _, v := range lg.V {
+				for _, e := range v.Succ {
+					if e.Cond == nil {
+						continue
+					}
+					okNil := false
+					for _, f := range cfgx.ExpandCond(e.Cond, e.Val) {
+						x, isNil, ok := nilCompare(info, f)
+						if !ok || !isNil {
+							continue
+						}
+						if id, ok := ast.Unparen(x).(*ast.Ident); ok {
+							for _, d := range defsOf(info, lit, astx.Obj(info, id)) {
+								if call, ok := ast.Unparen(d).(*ast.CallExpr); d != nil && ok && astx.Callee(info, call) == gst.Obj {
+									okNil = true
+								}
+							}
+						}
+					}
+					if !okNil {
+						continue
+					}
+					n++
+					skipped := !isSlot(e.To) && lg.Reach(e.To, isSlot, nil)[lg.Exit]
+					r.Check(!skipped, "C19.Z3", ct.Name(), "a peer that answered has its measurement stored", c.P.Pos(e.Cond.Pos()), "every path from the nil-error edge of getServerTime to the end of the goroutine passes results[idx] = …",
+						"collectTime drops a measurement although the peer answered (e.g. because the answer was slow): the empty slot is later taken for 'did not answer' and ignored, so a peer about which nothing good can be proven is trusted instead of making the node refuse")
+				}
+			}
+		}
+		if n == 0 {
+			r.Break("C19.Z3: no nil-error edge of getServerTime found in collectTime's goroutine")
+		}
+	}
 	// Z6: error discipline of the package
 	{
 		nErr := 0
